@@ -316,6 +316,31 @@ fn main() {
         }
     }
     random_driver(&mut log, &mut rng, args.n, args.max_words);
+    // --invfam K: the case analysis of ModInvAlg (inverse in a ring with a large modulus) on real operands: an element a of 1, 2,
+    // 3.. words and a modulus m = k a + delta with delta = 1 (the word-sized extended gcd returns s = 0: the sign of the cofactor
+    // comes from t), a - 1, 0 (a divides m: no inverse), 2, or anything below a
+    if let Some(i) = args.extra.iter().position(|x| x == "--invfam") {
+        let k: u64 = args.extra[i + 1].parse().unwrap();
+        for j in 0..k {
+            let aw = 1 + (j % 4) as usize;
+            let pat = if j % 3 == 0 { rng.next() } else { 0 };
+            let a = ubig_from_bytes(&pattern_bytes(&mut rng, 8 * aw, pat)) + UBig::from(2u8);
+            let kw = 3 + rng.below(3) as usize;
+            let kk = ubig_from_bytes(&pattern_bytes(&mut rng, 8 * kw, 0)) + UBig::ONE;
+            let delta = match (j / 4) % 5 {
+                0 => UBig::ONE,
+                1 => &a - UBig::ONE,
+                2 => UBig::ZERO,
+                3 => UBig::from(2u8),
+                _ => ubig_from_bytes(&pattern_bytes(&mut rng, 8 * aw, 0)) % &a,
+            };
+            let m = &kk * &a + delta;
+            let b = random_operand(&mut rng, &m, args.max_words);
+            let (ai, z) = (IBig::from(a), UBig::ZERO);
+            run_case(&mut log, "inv", &m, &ai, &b, &z, &m, "invfam");
+            run_case(&mut log, "div", &m, &b, &ai, &z, &m, "invfam");
+        }
+    }
     let n = log.finish();
     eprintln!("c13: {} events", n);
 }
